@@ -339,9 +339,10 @@ def handleFinishedClient (C : Crypto) (e : Ep) (body : Bytes) : R :=
     if body ≠ C.vd k.ms false e.ctx.transcript then failed e
     else ok (connect e k e.ctx.transcript body)
 
-/-- `handle_hello_verify_request` (no role test in the code) -/
+/-- `handle_hello_verify_request`: a server ignores the message (`if !is_client { return Ok(()) }`) -/
 def handleHvr (C : Crypto) (L : Loc) (e : Ep) (body : Bytes) : R :=
-  if C.hvrOk body then
+  if !e.isClient then ok e
+  else if C.hvrOk body then
     let c0 := { e.ctx with transcript := [] }
     let raw := rawMsg dtlsHtClientHello c0.msgSeq L.ch2Body
     let c1 := { c0 with transcript := raw }
@@ -385,9 +386,10 @@ def clientFinalFlight (C : Crypto) (c : Ctx) (k : Keys) : List WRec × Ctx :=
   let (rf, c4) := emitMsg c3 dtlsHtFinished (C.vd k.ms true c3.transcript) true
   ([rc, rf], c4)
 
-/-- `handle_server_hello_done` -/
+/-- `handle_server_hello_done`: a server ignores the message; a client that already has keys too -/
 def handleServerHelloDone (C : Crypto) (L : Loc) (e : Ep) : R :=
-  if e.ctx.keys.isSome then ok e
+  if !e.isClient then ok e
+  else if e.ctx.keys.isSome then ok e
   else if e.isClient && !e.ctx.skeVerified then failed e
   else
     let kc := emitMsg e.ctx dtlsHtClientKeyExchange L.ckeBody false
